@@ -35,4 +35,7 @@ def run(check):
     check.run_rule('C14.R8', lambda c: rule_eq_reflexive(c, 'C14.R8'))
     from ..rules_classes import rule_replace_returns_fresh
     check.run_rule('C14.R3c', lambda c: rule_replace_returns_fresh(c, 'C14.R3'))
+    from ..rules_classes import rule_eq_answers, rule_replace_slot_polarity
+    check.run_rule('C14.R9', lambda c: rule_eq_answers(c, 'C14.R9'))
+    check.run_rule('C14.R3d', lambda c: rule_replace_slot_polarity(c, 'C14.R3'))
     check.run_rule('C14.R4', lambda c: rule_nothing_else_overridden(c, 'C14.R4'))
